@@ -222,4 +222,19 @@ CLAIMED['C02'] = dict(category='proof',
         'No-flow and duct-average gap models are excluded by the property.',
    technique='contract-based deductive verification (proxy execution of the real region / reactor / core methods, exact '
              'affine normaliser); bounded run-time contracts for the whole-sweep closure')
+CLAIMED['C07'] = dict(category='proof',
+   text='For the generators of the symmetry group (rotation by 60 degrees; mirror with the wire-wrap direction reversed) '
+        'the real RoddedRegion.calculate (interior kernel with conduction, mixing and swirl, wall solve, bypass gaps, pin '
+        'power partition; 1-2 ducts, ring counts 2-3, both wire directions) and the six-node region satisfy '
+        'result(g.X) = g.result(X) for ALL real states X (temperatures, powers, gap boundary values, film coefficients, '
+        'properties, dimensions), with the cell permutations derived from the published centroid coordinates. A negative '
+        'control proves that the mirrored state without reversing the wire is NOT the mirror image (edge cells) while '
+        'interior cells do not feel the wire direction.',
+   note=_ASSUME + 'Per enumerated ring / duct count (2-3 quick, 2-4 thorough). Whole-assembly and whole-core equivariance '
+        '(7 and 19 positions, all three gap models, two assembly types, per-assembly power maps turned with the core) are '
+        'BOUNDED metamorphic run-time contracts on nine generated problems; for them the relative sense of position and '
+        'cell numbering is taken as the one for which the identity holds. Errors that are themselves symmetric (e.g. a '
+        'uniform index shift) are invisible to this property by nature (C02 / C10 cover them).',
+   technique='contract-based deductive verification (relational post-condition on two proxy executions of the real region '
+             'methods, exact affine normaliser); bounded metamorphic run-time contracts for whole problems')
 NOT_APPLICABLE = {f'C{i:02d}': 'check not built yet in this round (see DESIGN.md section 12 build order)' for i in range(1, 21)}
